@@ -112,7 +112,7 @@ NOT_YET = "not yet claimed: model/theorems for this property are still being bui
 CLAIMED["C01"].update(
     note="Trusted: Lean kernel + standard axioms; Model/Dispatcher; tools/extract.py for the regenerated table. End-to-end: the real process exit status is compared with the scripted processes' own outcomes in families mix (results, retries), slow (timed-out tests incl. ones that exit 0 when told to terminate), cancel (fail-fast / max-fail) and sig (shutdown signals). Reporter I/O failures are a hypothesis of the statement and are not injected.")
 CLAIMED["C02"].update(
-    note="PARTIAL: the full liveness statement is false of the current code (known finding F7, third-party future-queue); the partial liveness theorem under per-group uniform weights is not proved. Attempt numbering / one process per attempt / no overlap / exactly-once start and finish are checked on real histories (families mix, cancel, sig: monitors mon_once and mon_history on the event log merged with the processes' own records), not proved for the executor's attempt loop.")
+    note="PARTIAL: the full liveness statement is false of the current code (known finding F7, third-party future-queue: uncancelled_complete_counterexample); what holds is proved as uncancelled_complete_partial — for every test list, thread count, group configuration and every completion order, if all members of each test group have the same threads-required then the futures created so far plus the tests still waiting are exactly the selected tests (each once), the stream ends only with every future created and no test parked, and the scheduler never idles while a test waits (invariant: a non-empty group queue has a running member; Lemmas/SchedLive). The scheduler stream's monitor reports a never-created future under uniform weights as a violation and under mixed weights as F7. Attempt numbering / one process per attempt / no overlap / exactly-once start and finish are checked on real histories (families mix, cancel, sig: monitors mon_once and mon_history on the event log merged with the processes' own records), not proved for the executor's attempt loop.")
 CLAIMED["C03"].update(
     text=CLAIMED["C03"]["text"] + " ExecutionStatuses::describe is compared exhaustively over every sequence of 1-4 attempt results (guarded hook).",
     note="PARTIAL: the executor paths that set Timeout / ExecFail / leaked are modelled in Model/Unit (timeout_iff_terminated_by_nextest) and observed end-to-end (families mix, slow incl. tests exiting 0 on SIGTERM, cancel incl. a cancellation arriving inside the leak window); the race at the leak-timeout threshold is excluded by the statement.")
@@ -132,7 +132,7 @@ CLAIMED["C19"].update(
     text=CLAIMED["C19"]["text"].replace("(dedup_no_duplicates, dedup_first_wins, dedup_complete);", "(dedup_no_duplicates, dedup_first_wins, dedup_complete, member_origin); the archive's own metadata entries always come from memory, never from a stale file found in the target directory or an include (metadata_is_fresh);"))
 
 CLAIMED["C02"].update(
-    text=CLAIMED["C02"]["text"] + " One unit (Model/Attempts = the attempt loop of run_test_instance): at most one Finished, it is the unit's last action and carries exactly the outcomes of the attempts spawned, numbered 1..n in order (one_final_result); a refused start spawns and reports nothing (refused_start_runs_nothing). The attempt-loop model is also run as an acceptor of every test's observed history in the end-to-end runs.")
+    text=CLAIMED["C02"]["text"] + " One unit (Model/Attempts = the attempt loop of run_test_instance): at most one Finished, it is the unit's last action and carries exactly the outcomes of the attempts spawned, numbered 1..n in order (one_final_result); a refused start spawns and reports nothing (refused_start_runs_nothing). The attempt-loop model is also run as an acceptor of every test's observed history in the end-to-end runs. Scheduler liveness under per-group uniform threads-required (uncancelled_complete_partial): conservation of the selected tests across created futures / stream / group queues, the stream ends only when every future was created, and the scheduler never idles while a test waits — for every test list, configuration and completion order.")
 CLAIMED["C07"].update(
     text=CLAIMED["C07"]["text"] + " Attempt loop (Model/Attempts), for every policy, every behaviour of the processes and every pattern of acknowledgements: the loop never trips its expect on the backoff iterator (attempt_loop_never_panics), at most N+1 spawns numbered consecutively (attempts_bound), every attempt followed by another had failed (stop_on_success), a retry is spawned only after the dispatcher acknowledged it (no_retry_unless_acknowledged), un-refused units end in a pass or use all N+1 attempts (retried_until_pass_or_bound), the announced delays are the backoff iterator's (announced_delays_are_backoff).",
     note="PARTIAL: that the delay is actually waited (pauses excluded) is Model/Unit's delay phase plus end-to-end timestamps; the loop model is tied to the code as an acceptor of real histories (spawned attempt numbers, final statuses, announced delays of every test in family mix) and by the cancel family, not in-process.")
